@@ -261,7 +261,7 @@ def history(rng, rep, budget, fails, jobs):
                         rep.evaluations += 1
                         if c5["rc"] != 0 or str(J5["spec"]) not in t5 or str(J5["alg"]) not in t5:
                             fails.append(dict(what="`info %s` (exit %d) does not show the library's answer %s: %s" % (o, c5["rc"], J5, t5[:200]), history=hist))
-        content_listings(rng, rep, pair, fails, hist, ids)
+        content_listings(rng, rep, pair, fails, hist, ids, jobs)
         diff_renderings(rng, rep, pair, fails, hist, ids)
         # validate: object and repository mode under options, after identical damage on both sides
         validate_cases(rng, rep, pair, budget, fails, jobs, hist)
@@ -334,9 +334,11 @@ def expected_listing(state, glob, dirs_mode):
     return sorted(F + [d + "/" for d in DM])
 
 
-def content_listings(rng, rep, pair, fails, hist, ids):
+def content_listings(rng, rep, pair, fails, hist, ids, jobs):
     """`ls` of object contents: every rendering option and path query, on committed versions and on the staged
-    version; names, the version each file is attributed to, digests and physical paths against the library's answer"""
+    version; names, the version each file is attributed to, digests and physical paths against the library's answer;
+    the printed names also against the Lean model of the filter (ListView.listContents)"""
+    pending = []
     for o in ids:
         for staged in (False, True):
             st = pair.live.ask(("staged %s" % hx(o)) if staged else ("ver %s -" % hx(o)))
@@ -381,6 +383,7 @@ def content_listings(rng, rep, pair, fails, hist, ids):
                 # cells are padded to the column width even with tab separation; the generated names do not end in blanks
                 rows = [[c.rstrip(" ") for c in r] for r in rows]
                 got = sorted(r[cols.index("name")] for r in rows)
+                pending.append(("script-lscontents %d %s %s" % (1 if D else 0, hx(q) if q is not None else "-", " ".join(hx(p_) for p_ in paths)), got, what))
                 if got != want:
                     fails.append(dict(what="%s prints %r, the object holds %r: expected %r" % (what, got[:8], paths[:8], want[:8]), history=hist[-6:])); continue
                 for r in rows:
@@ -400,6 +403,20 @@ def content_listings(rng, rep, pair, fails, hist, ids):
                         inside = os.path.realpath(full).startswith(os.path.realpath(pair.sb.root) + "/") or os.path.realpath(full).startswith(os.path.realpath(pair.sb.staging) + "/")
                         if not inside or not os.path.isfile(full) or hashlib.new(J["alg"], open(full, "rb").read()).hexdigest() != dg:
                             fails.append(dict(what="%s shows physical path %s for %r: not a file in the repository with the listed digest" % (what, pp, name), history=hist[-6:])); break
+    _model_listings(rep, pending, jobs, hist)
+
+
+def _model_listings(rep, pending, jobs, hist):
+    if not pending:
+        return
+    res = core.run_lines(core.drv_path(), [p[0] for p in pending])
+    for (line, got, what), r in zip(pending, res):
+        rep.count("lean-listing:" + ("ok" if r.startswith("ok") else r[:20]))
+        if not r.startswith("ok") or r == "ok bad-glob":
+            jobs.append(dict(kind="listing", what="%s: the model answers %s" % (what, r[:60]), history=hist[-4:])); continue
+        model = sorted(unhx(x).decode("utf-8") for x in r.split(" ")[1:] if x)
+        if model != got:
+            jobs.append(dict(kind="listing", what="%s prints %r, the model of the filter yields %r" % (what, got[:8], model[:8]), history=hist[-4:]))
 
 
 def _diff_lines(text):
